@@ -161,6 +161,21 @@ Proof.
 Qed.
 Print Assumptions C17_interp_stamp_exact.
 
+(* put together: on a time-ordered list, when the last frame <= t and the first frame > t are both within
+   tolerance (and well formed), the interpolated lookup returns a NEW frame built from exactly these two,
+   stamped with exactly the query time (the clauses below then describe its objects) *)
+Theorem C17_interpolated_lookup_both_usable : forall l t tol i fb j fa,
+  ascending l ->
+  (nth_error l i = Some fb /\ f_stamp fb <= t /\
+   forall k g, nth_error l k = Some g -> f_stamp g <= t -> (k <= i)%nat) ->
+  (nth_error l j = Some fa /\ t < f_stamp fa /\
+   forall k g, nth_error l k = Some g -> t < f_stamp g -> (j <= k)%nat) ->
+  dist t fb <= tol -> dist t fa <= tol -> well_formed fb -> well_formed fa ->
+  exists f, get_interpolated_now_frame l t tol = RInterp i j f /\ if_stamp f = t /\
+            f_stamp fb <= t < f_stamp fa.
+Proof. exact interp_lookup_both_usable. Qed.
+Print Assumptions C17_interpolated_lookup_both_usable.
+
 (* error branches: a neighbour without ego transform -> KeyError; an object in another frame -> NotImplementedError *)
 Theorem C17_interp_errors : forall i j fb fa t,
   (f_ego fb = None \/ f_ego fa = None -> interpolate_frames i j fb fa t = RError ErrNoTransform) /\
